@@ -178,9 +178,9 @@ def defOf (i : Nat) : Sexp → Option Def
     defOf5 i p as q e s cs ps fs
   | _ => none
 
-/-- the universe restriction on member functions: along a chain no function shares its name with an attribute or constant
-    (own or inherited, in either direction), and `equality` / `serialization` name no function.  `chain i` = the attribute /
-    constant names and the function names of definition `i` and its ancestors. -/
+/-- the universe restriction on member functions: `equality` / `serialization` name no function of the chain (name clashes
+    between functions and attributes ARE inside the model: OVERRIDE_MEMBER_MISMATCH, MEMBER_NAME_CONFLICT).  `chain i` = the
+    attribute / constant names and the function names of definition `i` and its ancestors. -/
 def chainNames (ds : List Def) : Nat → Nat → List String × List String
   | 0, _ => ([], [])
   | fuel + 1, i =>
@@ -194,11 +194,10 @@ def chainNames (ds : List Def) : Nat → Nat → List String × List String
 
 def fnNamesOK (ds : List Def) : Bool :=
   (List.range ds.length).all fun i =>
-    let (as, fs) := chainNames ds (ds.length + 1) i
+    let (_, fs) := chainNames ds (ds.length + 1) i
     match ds[i]? with
     | none => true
     | some d =>
-      !(fs.any (fun f => as.contains f)) &&
       !((d.equality.toList?.getD []).any (fun n => fs.contains n)) &&
       !((d.serialization.getD []).any (fun n => fs.contains n))
 
